@@ -129,8 +129,12 @@ def stream_job(ctx, col, case, tag, rng, job, faults, lat, perturb=True):
     want = expected_commands(job)
     info = {"job_lines": len(job), "commands": len(want), "corrupt_tx": sorted(faults), "latency": lat, "tag": tag}
     verdict = None
+    # random yields everywhere + 0-3 delay points inside the two protocol-critical functions
     pert = sched.Perturber(sched.printrun_functions(), seed=rng.randrange(1 << 30),
-                           p_yield=0.25 if perturb else 0.0, p_sleep=0.01 if perturb else 0.0)
+                           p_yield=0.25 if perturb else 0.0, p_sleep=0.01 if perturb else 0.0,
+                           focus=(printcore._sendnext, printcore._listen),
+                           n_points=rng.choice([0, 1, 2]) if perturb else 0,
+                           point_delay=rng.choice([0.001, 0.003]))
     try:
         with pert:
             p.connect(dev.port, 115200)
@@ -174,6 +178,7 @@ def stream_job(ctx, col, case, tag, rng, job, faults, lat, perturb=True):
         dev.close()
     col.count("line_events_seen", pert.line_events)
     col.count("yields_injected", pert.injected)
+    col.count("delay_point_hits", pert.point_hits)
     col.count("context_switch_observations", sum(pert.switch_pairs.values()))
     for (a, b), n in pert.switch_pairs.items():
         col.count(f"switch:{role(a)}->{role(b)}", n)
@@ -272,17 +277,17 @@ def analyse(ctx, col, case, info, dev, beh, want, verdict):
         return fail("job-transmission-without-line-number-or-checksum", lines=[u.decode("latin1") for u in unnumbered[:5]])
     # ---- end to end ------------------------------------------------------------
     if verdict == "stalled":
-        return fail("sender-stalled-with-lines-outstanding", mech=classify(info, dev, want, "stalled"),
+        return fail("sender-stalled-with-lines-outstanding", mech=classify(info, dev, want, "stalled", beh),
                     accepted_count=len(dev.accepted))
     if dev.accepted != want:
         what = ("lines-lost" if len(dev.accepted) < len(want) else
                 "lines-duplicated" if len(dev.accepted) > len(want) else "lines-reordered-or-altered")
         return fail("firmware-did-not-accept-the-job-exactly-once-in-order", what=what,
-                    mech=classify(info, dev, want, what), accepted_count=len(dev.accepted))
+                    mech=classify(info, dev, want, what, beh), accepted_count=len(dev.accepted))
     return True
 
 
-def classify(info, dev, want, what):
+def classify(info, dev, want, what, beh):
     """Known-finding classifier (by mechanism, from the witness only)."""
     faults = info["corrupt_tx"]
     if 0 in faults:
@@ -290,9 +295,14 @@ def classify(info, dev, want, what):
         return "c15:corrupted-M110-reset"
     acc = dev.accepted
     if what in ("lines-lost", "stalled") and acc == want[:len(acc)] and len(acc) < len(want):
-        # a clean prefix was accepted and the tail is missing: the print thread ended (or stopped)
-        # while a resend request for the tail was still on its way
-        if dev.resend_requests >= 2:
+        # a clean prefix was accepted and the tail is missing.  Known mechanism: every resend episode
+        # yields one surplus anonymous 'ok' ("Resend: n" is followed by "ok", and the resent line is
+        # acknowledged again), so after k episodes the sender runs k lines ahead of the
+        # acknowledgements and reports the job finished while its last lines (or a resent copy of
+        # them) are still in flight; a corruption among those is never repaired.  This needs at
+        # least TWO corrupted transmissions in the job -- a job with a single corrupted transmission
+        # must always be recovered, whatever the number of resend requests it provoked.
+        if len(beh.corrupted) >= 2:
             return "c15:tail-lost-after-repeated-resend"
     return None
 
